@@ -1026,12 +1026,20 @@ struct Gen {
       }
       return push_call(c);
     }
-    uint64_t lk = r.below(10);
+    uint64_t lk = r.below(11);
+    if (lk == 10) {
+      c.op = OP_LIFE_TABLE_SEQ;
+      c.p[0] = r.next() >> 8;
+      c.p[1] = (uint64_t)r.range(8, 48);
+      c.p[2] = r.below(9);
+      c.p[3] = r.chance(8, 100) ? (uint64_t)r.range(10, 13) : (uint64_t)r.range(2, cfg.max_log2n + 1);
+      return push_call(c);
+    }
     if (lk == 9) {
       c.op = OP_LIFE_MODULE_SEQ;
       c.p[0] = r.next() >> 8;
       c.p[1] = (uint64_t)r.range(6, 18);
-      c.p[2] = cfg.ntt120 && r.chance(1, 3);
+      c.p[2] = cfg.ntt120 ? (r.chance(1, 3) ? 1 : (r.chance(1, 2) ? 2 : 0)) : 0;
       c.p[3] = r.chance(10, 100) ? (uint64_t)r.range(12, 14) : (uint64_t)r.range(3, cfg.max_log2n + 1);  // dimensions 2..2^p3, small and large mixed
       return push_call(c);
     }
